@@ -10,6 +10,30 @@ BASELINE_OFF = ("cd /repo && env -u SYM_METANET_VERIF /venv/bin/python -m pytest
 
 # id -> (technique, level text, level note, design ref)
 CHECKS = {
+    "C02": (
+        "exhaustive enumeration of network programs x deviation-bounded value vectors, network-wide and per-node "
+        "vehicle balances computed from each real step's own inputs and outputs",
+        "Bounded exhaustive exploration on the implementation (same program/value space as C01, own run): after every "
+        "real NumPy step and every evaluation of the compiled SX (thorough: also MX) function the network balance and "
+        "one balance per node are checked; no reference model is involved, the oracle is an identity over the "
+        "function's own I/O.",
+        "Vectors with infinite controls are skipped; tolerance 1e-9 relative to the largest balance term; networks "
+        "above the bound are not built.",
+        "DESIGN.md section 3, C02",
+    ),
+    "C10": (
+        "exhaustive enumeration of network programs; per program all (output, input) structural dependency bits of the "
+        "real compiled function (CasADi sparsity propagation) and all single-scalar perturbations of the NumPy step, "
+        "checked against an allowed-neighbour relation",
+        "Bounded exhaustive exploration on the implementation: for every valid topology/configuration within the bound "
+        "the real compiled function (SX and MX, with and without delta/phi) is examined for every output/input scalar "
+        "pair - a structural bit is a statement about all numeric inputs - and the NumPy path is perturbed one scalar "
+        "at a time over the alphabets from two base vectors; observed dependencies must be allowed by the METANET "
+        "neighbour relation derived from the spec alone.",
+        "Allowed relation from mc/refmodel.allowed_dependencies; CasADi's sparsity propagation is trusted to be a sound "
+        "over-approximation of real dependence (measured: never coarser than the allowed relation on the fixed tree).",
+        "DESIGN.md section 3, C10",
+    ),
     "C01": (
         "exhaustive enumeration of network programs (shapes up to isomorphism x configurations within a deviation "
         "bound) x value vectors (deviation-bounded over branch-boundary alphabets), every real step compared "
